@@ -632,6 +632,23 @@ func c18RoundTripOn(f *flamego.Flame, got *string, value string) (bad string) {
 	if *got != value {
 		return fmt.Sprintf("cookie value %q read back as %q (wire form %q)", value, *got, cks[0].Value)
 	}
+	// the client sends its cookies in two Cookie header fields, this one in the second (and, once more, in the
+	// first, behind another cookie in the same field)
+	for _, lines := range [][]string{{"other=1", cks[0].Name + "=" + cks[0].Value}, {"first=1; " + cks[0].Name + "=" + cks[0].Value, "other=2"}} {
+		req := newReq("GET", "/get")
+		req.Header["Cookie"] = lines
+		*got = "\x00unset"
+		func() {
+			defer func() { pan = recover() }()
+			f.ServeHTTP(&c01Spy{hdr: http.Header{}}, req)
+		}()
+		if pan != nil {
+			return fmt.Sprintf("Cookie panicked: %v", pan)
+		}
+		if *got != value {
+			return fmt.Sprintf("cookie value %q read back as %q when the request carries the Cookie header fields %q", value, *got, lines)
+		}
+	}
 	return ""
 }
 
